@@ -388,6 +388,14 @@ class Gen:
     if rng.random() < 0.2:
       extra += ["Padding"]
     self.styles(a, extra)
+    if rng.random() < 0.12:
+      # a background that is painted only while an animation step switches showBackground to always (outside any content)
+      a.styles["ShowBackground"] = E("ShowBackgroundType", "whenActive")
+      a.styles["BackgroundColor"] = ("C", rng.choice([(255, 0, 0, 255), (0, 0, 255, 255), (0, 0, 0, 136)]))
+      a.styles.pop("Display", None); a.styles.pop("Opacity", None); a.styles.pop("Visibility", None)
+      b = rng.choice(TIME_GRID)
+      a.anims.append(("ShowBackground", b, b + rng.choice([Fr(1, 2), Fr(1), Fr(3)]), E("ShowBackgroundType", "always")))
+      self.classes.add("region-bg-by-animation")
     return a
 
   def doc(self) -> AbsDoc:
@@ -414,6 +422,11 @@ class Gen:
         d.initials[prop] = style_value(rng, prop)
         if prop == "Display":
           self.classes.add("display-initial")
+    if rng.random() < 0.05:
+      # <initial tts:display="none"/>: only elements that specify or animate display are presented
+      d.initials["Display"] = E("DisplayType", "none")
+      self.classes.add("display-initial")
+      self.classes.add("display-initial-none")
     if rng.random() < 0.97:
       b = AbsEl("Body", id=self.eid())
       self.timing(b, self.p["p_time"] * 0.5)
